@@ -45,10 +45,11 @@ READ_PARTIAL = read_contract('partial')
 IS_EOS_BYTESIO = Contract(
     id='codec.streaming::isEndOfStream[BytesIO]', file=F, qual='isEndOfStream', properties=['C05', 'C06', 'C07'],
     params=dict(substrate=PStream('complete', bases=('BytesIO', 'IOBase'))),
-    yield_ensures=[('bool', 'y == (old(substrate.pos) >= len(substrate.data))'),
+    yield_ensures=[('answers-are-booleans', 'isinstance(y, bool)'),
+                   ('bool', 'y == (old(substrate.pos) >= len(substrate.data))'),
                    ('non-destructive', 'substrate.pos == old(substrate.pos)')],
     exit_ensures=[('one-yield', 'nyields() == 1'), ('non-destructive', 'substrate.pos == old(substrate.pos)')],
-    external=['bool', 'non-destructive', 'one-yield'],
+    external=['bool', 'answers-are-booleans', 'non-destructive', 'one-yield'],
 )
 
 IS_EOS_GENERIC = Contract(
@@ -56,6 +57,9 @@ IS_EOS_GENERIC = Contract(
     params=dict(substrate=PStream('partial', bases=('IOBase',))),
     yield_ensures=[
         # from the statement of C05/C06: "end of stream" is reported only when the stream signalled it
+        # what StreamingDecoder.__iter__ relies on: "no data yet" is a bare None, every other item is a boolean -- never an
+        # object that would pass for a (truthy) answer
+        ('none-or-boolean', 'y is None or isinstance(y, bool)'),
         ('true-only-at-eof', 'y is True ==> substrate.eof_signalled'),
         ('false-only-with-data', 'y is False ==> old(substrate.pos) < len(substrate.data)'),
         ('non-destructive', 'substrate.pos == old(substrate.pos)')],
